@@ -28,6 +28,8 @@ def shards(tier, seed):
     # the library as it is installed: built from the tree (setup.py build, what a wheel would contain), not the source directory
     out += [{"id": "built-" + n, "sgio": s, "iscsi": i, "n": 10 if tier == "quick" else 100, "version": VERSIONS[(seed + 3 + k) % len(VERSIONS)], "built": True}
             for k, (n, s, i) in enumerate(CONFIGS) if n in ("none", "both")]
+    # both bindings installed, once per release string of their package metadata
+    out += [{"id": "both-v" + v, "sgio": True, "iscsi": True, "n": 2, "version": v} for v in VERSIONS]
     return out
 
 
@@ -351,7 +353,7 @@ def run(shard, ctx):
 
 def finalize(merged, tier):
     c = merged["counters"]
-    if merged["shards"] not in (6, 12):  # 4 configurations from the source tree + 2 from a built copy, each also in the -O -W error interpreter
+    if merged["shards"] not in (12, 24):  # 4 configurations from the source tree, 2 from a built copy, 6 binding releases; each also in the -O -W error interpreter
         merged["inconclusive"].append("not all 4 configurations ran")
     for k in ("modules_imported", "commands_built", "device_string_cases", "facade_plain_ok"):
         if c.get(k, 0) == 0:
